@@ -99,6 +99,15 @@ def parseConfigOp (c : Cfg) (ws : List String) : Option Op :=
     let a ← (← s "asset") |> parseClass
     let tf ← (← s "tf") |> parseFlag
     pure (.vaultInst via fees a tf)
+  | ["vault_inst", _, _, _, _, _] => do
+    let via ← (← s "via") |> parseVia
+    let fees ← (← s "fees") |> parseTriple
+    let a ← (← s "asset") |> parseClass
+    let tf ← (← s "tf") |> parseFlag
+    let lp ← s "lp"
+    if lp == "stock" then pure (.vaultInst via fees a tf false)
+    else if lp == "lenient" then pure (.vaultInst via fees a tf true)
+    else none
   | ["vault_upd", _, _, _] => do
     let via ← (← s "via") |> parseVia
     let i ← (← s "i").toNat?
@@ -117,6 +126,14 @@ def parseConfigOp (c : Cfg) (ws : List String) : Option Op :=
     let n ← (← s "n").toNat?
     let k ← (← s "cw20") |> parseFlag
     pure (.lairInst r n (k && decide (n > 0)))
+  | ["lair_inst", _, _, _, _] => do
+    let r ← (← s "growth").toNat?
+    let n ← (← s "n").toNat?
+    let k ← (← s "cw20") |> parseFlag
+    let via ← s "via"
+    if via == "chain" then pure (.lairInst r n (k && decide (n > 0)) true)
+    else if via == "entry" then pure (.lairInst r n (k && decide (n > 0)) false)
+    else none
   | ["lair_upd", _] => do
     let r ← (← s "growth") |> parseOpt String.toNat?
     pure (.lairUpd r)
